@@ -1,1 +1,1116 @@
-fn main(){}
+//! C08 — expansion work and memory are bounded by the budget and alias limits.
+//!
+//! Observers: `vcore::val::counting::Sink` (visitor callbacks = nodes delivered,
+//! allocates nothing), the hook stream with the monitor's own shadow counters
+//! (`vcore::budgetmodel::monitor`: replayed events since the last reset, live
+//! inject frames, expansions per anchor — checked against the limits at every
+//! step), the counting allocator (peak live bytes of the measuring thread during
+//! the call), and `vcore::budgetmodel::model` as the reference expansion.
+//!
+//! Oracles
+//!  * work: callbacks <= max_nodes, events pumped <= max_events on every run,
+//!    failing ones included; the step-wise shadow counters never exceed
+//!    max_total_replayed_events / max_replay_stack_depth /
+//!    max_alias_expansions_per_anchor;
+//!  * acceptance: each of the three alias limits (and max_nodes / max_events) set
+//!    to the measured value ⇒ Ok, to measured−1 ⇒ Err of the matching kind
+//!    (measured value = model value = trace value, otherwise inconclusive);
+//!    under the default limits: Ok iff the reference expansion is within every
+//!    limit, otherwise Err whose kind is one of the exceeded limits;
+//!  * memory: peak <= 2 MiB + 256·input_bytes + 1024·counted_events (constants
+//!    from DESIGN.md, not tuned), counted_events = the budget's own event count
+//!    (report) or, for runs that fail before the report, the events the hook saw;
+//!    plus the scaling law peak(2p) <= 2.6·peak(p) once above 2 MiB for the
+//!    parameters in which a family is linear.
+//!
+//! Heavy members (estimated peak > 48 MiB) are measured in a child process
+//! (`c08 child …`) under RLIMIT_AS, so an OOM kill is inconclusive, not a crash.
+
+use serde::{Deserialize, Serialize};
+use serde_json::json;
+use std::collections::BTreeMap;
+use std::sync::Mutex;
+use vcore::budgetmodel::{self as bm, MonLimits, MonState, StreamModel};
+use vcore::reftree::render_checked;
+use vcore::rng::{Rng, fnv_parts};
+use vcore::run::{Finish, Run, Tier, par_range};
+use vcore::treegen::{self, LEAVES_BASIC};
+use vcore::val::counting::{self, Sink};
+use vcore::ydoc::{self, Node, RenderOpts};
+
+#[global_allocator]
+static A: vcore::obs::CountingAlloc = vcore::obs::CountingAlloc;
+
+const MIB: u64 = 1 << 20;
+/// DESIGN.md §5 C08 — fixed before measuring, never tuned.
+fn memory_bound(input_bytes: u64, counted_events: u64) -> u64 {
+    2 * MIB + 256 * input_bytes + 1024 * counted_events
+}
+const SCALING_FACTOR: f64 = 2.6;
+
+// ------------------------------------------------------------------ attack families
+
+#[derive(Clone, Debug, PartialEq, Eq, Serialize, Deserialize)]
+struct Case {
+    family: String,
+    p: Vec<u64>,
+}
+
+impl Case {
+    fn new(family: &str, p: &[u64]) -> Case {
+        Case { family: family.into(), p: p.to_vec() }
+    }
+    fn product(&self) -> u64 {
+        self.p.iter().fold(1u64, |a, b| a.saturating_mul((*b).max(1)))
+    }
+    fn id(&self) -> String {
+        format!("{}({})", self.family, self.p.iter().map(|x| x.to_string()).collect::<Vec<_>>().join(","))
+    }
+    /// family name used in signatures (layout variants of one family share it)
+    fn sig_family(&self) -> &str {
+        match self.family.as_str() {
+            "nested-anchors-flow" | "nested-anchors-block" => "nested-anchors",
+            f => f,
+        }
+    }
+    /// indices of the parameters in which input size and counted events are (at most) linear
+    fn linear_params(&self) -> &'static [usize] {
+        match self.family.as_str() {
+            "nested-anchors-flow" | "nested-anchors-block" => &[0, 1],
+            "alias-run" => &[0],
+            "aliases-in-anchored" => &[0, 1],
+            "wide-merge-distinct" | "wide-merge-same" => &[0, 1],
+            "many-small-anchors" => &[0],
+            // bomb(f, l) expands to f^l and chain(n) to n^2 by construction: only the absolute bound applies
+            _ => &[],
+        }
+    }
+}
+
+fn build(c: &Case) -> String {
+    let p = &c.p;
+    let mut s = String::new();
+    match c.family.as_str() {
+        // fan-out f, l levels: a0 = f scalars, a_i = f aliases of a_{i-1}; the last level is the payload
+        "bomb" => {
+            let (f, l) = (p[0], p[1]);
+            s.push_str("a0: &a0 [");
+            for i in 0..f {
+                if i > 0 {
+                    s.push_str(", ");
+                }
+                s.push('x');
+            }
+            s.push_str("]\n");
+            for lev in 1..l {
+                s.push_str(&format!("a{lev}: &a{lev} ["));
+                for i in 0..f {
+                    if i > 0 {
+                        s.push_str(", ");
+                    }
+                    s.push_str(&format!("*a{}", lev - 1));
+                }
+                s.push_str("]\n");
+            }
+        }
+        // a_i = [*a_{i-1}]: every level wraps the previous one (expansion n^2 / 2, depth n)
+        "chain" => {
+            let n = p[0];
+            s.push_str("a0: &a0 [x]\n");
+            for i in 1..n {
+                s.push_str(&format!("a{i}: &a{i} [*a{}]\n", i - 1));
+            }
+        }
+        // one anchored scalar, n aliases to it
+        "alias-run" => {
+            let n = p[0];
+            s.push_str("- &a x\n");
+            for _ in 0..n {
+                s.push_str("- *a\n");
+            }
+        }
+        // base of k scalars; an anchored container holding n aliases of it; the container aliased once more
+        "aliases-in-anchored" => {
+            let (n, k) = (p[0], p[1]);
+            s.push_str("base: &b [");
+            for i in 0..k {
+                if i > 0 {
+                    s.push_str(", ");
+                }
+                s.push('1');
+            }
+            s.push_str("]\nbig: &big [");
+            for i in 0..n {
+                if i > 0 {
+                    s.push_str(", ");
+                }
+                s.push_str("*b");
+            }
+            s.push_str("]\nuse: *big\n");
+        }
+        // d anchored flow sequences nested around n scalars
+        "nested-anchors-flow" => {
+            let (d, n) = (p[0], p[1]);
+            for i in 0..d {
+                s.push_str(&format!("&n{i} ["));
+            }
+            for i in 0..n {
+                if i > 0 {
+                    s.push(',');
+                }
+                s.push('1');
+            }
+            for _ in 0..d {
+                s.push(']');
+            }
+            s.push('\n');
+        }
+        // d anchored block mappings nested (indent 1) around a flow sequence of n scalars
+        "nested-anchors-block" => {
+            let (d, n) = (p[0], p[1]);
+            for i in 0..d {
+                for _ in 0..i {
+                    s.push(' ');
+                }
+                s.push_str(&format!("k: &n{i}\n"));
+            }
+            for _ in 0..d {
+                s.push(' ');
+            }
+            s.push_str("k: [");
+            for i in 0..n {
+                if i > 0 {
+                    s.push(',');
+                }
+                s.push('1');
+            }
+            s.push_str("]\n");
+        }
+        // k merge sources with m keys each, merged into one mapping
+        "wide-merge-distinct" | "wide-merge-same" => {
+            let (k, m) = (p[0], p[1]);
+            let same = c.family == "wide-merge-same";
+            for i in 0..k {
+                s.push_str(&format!("s{i}: &s{i} {{"));
+                for j in 0..m {
+                    if j > 0 {
+                        s.push_str(", ");
+                    }
+                    if same {
+                        s.push_str(&format!("k{j}: {i}"));
+                    } else {
+                        s.push_str(&format!("k{i}_{j}: {i}"));
+                    }
+                }
+                s.push_str("}\n");
+            }
+            s.push_str("t:\n  <<: [");
+            for i in 0..k {
+                if i > 0 {
+                    s.push_str(", ");
+                }
+                s.push_str(&format!("*s{i}"));
+            }
+            s.push_str("]\n  own: 1\n");
+        }
+        // n anchored scalars, every 16th one aliased once
+        "many-small-anchors" => {
+            let n = p[0];
+            for i in 0..n {
+                s.push_str(&format!("- &m{i} v\n"));
+                if i % 16 == 0 {
+                    s.push_str(&format!("- *m{i}\n"));
+                }
+            }
+        }
+        other => panic!("unknown family {other}"),
+    }
+    s
+}
+
+// ------------------------------------------------------------------ measuring one run
+
+#[derive(Clone, Debug, Default, Serialize, Deserialize)]
+struct Outcome {
+    ok: bool,
+    /// effective error kind ("" for Ok)
+    kind: String,
+    budget_field: Option<String>,
+    wrapped: bool,
+}
+
+fn outcome_of<T>(r: &Result<T, serde_saphyr::Error>) -> Outcome {
+    match r {
+        Ok(_) => Outcome { ok: true, ..Default::default() },
+        Err(e) => {
+            let k = bm::effective_kind(e);
+            Outcome { ok: false, kind: k.kind, budget_field: k.budget_field.map(String::from), wrapped: k.wrapped }
+        }
+    }
+}
+
+#[derive(Clone, Debug, Default, Serialize, Deserialize)]
+struct Mon {
+    pumps_parser: u64,
+    pumps_replay: u64,
+    pumps_synth: u64,
+    alias_pushes: u64,
+    doc_resets: u64,
+    nodes: u64,
+    max_depth: u64,
+    bytes_parser: u64,
+    bytes_replay: u64,
+    max_replayed_since_reset: u64,
+    max_inject_depth: u64,
+    max_rec_depth: u64,
+    max_expansions_per_anchor: u64,
+    distinct_states: u32,
+    step_violation: Option<(String, u64, u64, u64)>,
+}
+
+impl Mon {
+    fn of(m: &MonState) -> Mon {
+        Mon {
+            pumps_parser: m.pumps_parser,
+            pumps_replay: m.pumps_replay,
+            pumps_synth: m.pumps_synth,
+            alias_pushes: m.alias_pushes,
+            doc_resets: m.doc_resets,
+            nodes: m.nodes,
+            max_depth: m.max_depth,
+            bytes_parser: m.bytes_parser,
+            bytes_replay: m.bytes_replay,
+            max_replayed_since_reset: m.max_replayed_since_reset,
+            max_inject_depth: m.max_inject_depth,
+            max_rec_depth: m.max_rec_depth,
+            max_expansions_per_anchor: m.max_expansions_per_anchor,
+            distinct_states: m.distinct_states(),
+            step_violation: m.step_violation.map(|(w, a, b, c)| (w.to_string(), a, b, c)),
+        }
+    }
+    fn pumps(&self) -> u64 {
+        self.pumps_parser + self.pumps_replay + self.pumps_synth
+    }
+    /// events the hook saw go through the budget: pumps + aliases accepted + document markers + StreamStart
+    fn events_seen(&self) -> u64 {
+        self.pumps() + self.alias_pushes + self.doc_resets + 1
+    }
+    fn disagreement(&self, m: &StreamModel) -> Option<&'static str> {
+        if self.pumps_synth != 0 {
+            return Some("trace has synthesized events");
+        }
+        if self.pumps_parser != m.parser_pumps {
+            return Some("model/trace: parser pumps differ");
+        }
+        if self.pumps_replay != m.replayed_total {
+            return Some("model/trace: replayed events differ");
+        }
+        if self.alias_pushes != m.all.aliases {
+            return Some("model/trace: alias pushes differ");
+        }
+        if self.nodes != m.all.nodes || self.max_depth != m.all.max_depth {
+            return Some("model/trace: nodes or depth differ");
+        }
+        if self.bytes_parser != m.parser_scalar_bytes || self.bytes_replay != m.replay_scalar_bytes {
+            return Some("model/trace: scalar bytes differ");
+        }
+        if self.max_replayed_since_reset != m.max_replayed_per_doc {
+            return Some("model/trace: replayed per document differs");
+        }
+        if self.max_expansions_per_anchor != m.max_expansions_per_anchor {
+            return Some("model/trace: expansions per anchor differ");
+        }
+        None
+    }
+}
+
+#[derive(Clone, Debug, Default, Serialize, Deserialize)]
+struct Measured {
+    input_bytes: u64,
+    // run 1: monitored
+    out: Outcome,
+    mon: Mon,
+    callbacks: u64,
+    report_events: Option<u64>,
+    report_nodes: Option<u64>,
+    panic: Option<String>,
+    // run 2: memory (no sink installed)
+    mem_out: Outcome,
+    peak: u64,
+    total_alloc: u64,
+    allocs: u64,
+    mem_report_events: Option<u64>,
+}
+
+fn options_default_with_report() -> (serde_saphyr::Options, std::rc::Rc<std::cell::RefCell<Option<(u64, u64)>>>) {
+    let got = std::rc::Rc::new(std::cell::RefCell::new(None));
+    let g2 = got.clone();
+    let o = serde_saphyr::Options::default().with_budget_report(move |r| {
+        *g2.borrow_mut() = Some((r.events as u64, r.nodes as u64));
+    });
+    (o, got)
+}
+
+/// Monitored run of `from_str_with_options::<Sink>` under `opts`.
+fn run_monitored(
+    text: &str,
+    opts: serde_saphyr::Options,
+    anchor_capacity: usize,
+) -> (Result<Outcome, String>, Mon, u64) {
+    #[allow(deprecated)]
+    let lim = MonLimits::of(&opts.alias_limits);
+    counting::reset();
+    // a stream ("\n---\n" inside) goes through the multi-document entry point
+    let multi = text.contains("\n---\n");
+    let (r, mon) = bm::monitor(lim, anchor_capacity, || {
+        vcore::obs::catch(|| {
+            if multi {
+                outcome_of(&serde_saphyr::from_multiple_with_options::<Sink>(text, opts))
+            } else {
+                outcome_of(&serde_saphyr::from_str_with_options::<Sink>(text, opts))
+            }
+        })
+    });
+    (r, Mon::of(&mon), counting::get())
+}
+
+/// Both runs of one input under the default options. Runs on the calling thread
+/// (the allocator counts per thread).
+fn measure_default(text: &str) -> Measured {
+    let mut m = Measured { input_bytes: text.len() as u64, ..Default::default() };
+    // anchors are numbered densely by the parser; '&' count bounds the ids without parsing
+    let anchor_cap = text.bytes().filter(|b| *b == b'&').count();
+    let (o, got) = options_default_with_report();
+    let (r, mon, callbacks) = run_monitored(text, o, anchor_cap);
+    m.mon = mon;
+    m.callbacks = callbacks;
+    match r {
+        Ok(out) => m.out = out,
+        Err(p) => {
+            m.panic = Some(p);
+            return m;
+        }
+    }
+    if let Some((e, n)) = *got.borrow() {
+        m.report_events = Some(e);
+        m.report_nodes = Some(n);
+    }
+    // run 2: nothing installed, nothing allocated by the harness between reset and stats
+    let (o, got) = options_default_with_report();
+    let base = vcore::obs::alloc_reset();
+    let r = vcore::obs::catch(|| serde_saphyr::from_str_with_options::<Sink>(text, o));
+    let st = vcore::obs::alloc_stats(base);
+    match &r {
+        Ok(r) => m.mem_out = outcome_of(r),
+        Err(p) => m.panic = Some(p.clone()),
+    }
+    drop(r);
+    m.peak = st.peak as u64;
+    m.total_alloc = st.total as u64;
+    m.allocs = st.allocs as u64;
+    m.mem_report_events = got.borrow().map(|(e, _)| e);
+    m
+}
+
+// ------------------------------------------------------------------ verdicts for one attack case
+
+/// Limits of `Options::default()` that the reference expansion exceeds: (kind, budget field).
+fn exceeded_defaults(m: &StreamModel) -> Vec<(&'static str, Option<&'static str>)> {
+    let b = serde_saphyr::Budget::default();
+    let al = serde_saphyr::options::AliasLimits::default();
+    let mut v = Vec::new();
+    let a = &m.all;
+    let mut bf = |cond: bool, f: &'static str| {
+        if cond {
+            v.push(("Budget", Some(f)));
+        }
+    };
+    bf(a.events > b.max_events as u64, "events");
+    bf(a.aliases > b.max_aliases as u64, "aliases");
+    bf(a.anchors > b.max_anchors as u64, "anchors");
+    bf(a.max_depth > b.max_depth as u64, "max_depth");
+    bf(a.documents > b.max_documents as u64, "documents");
+    bf(a.nodes > b.max_nodes as u64, "nodes");
+    bf(a.total_scalar_bytes > b.max_total_scalar_bytes as u64, "total_scalar_bytes");
+    bf(a.merge_keys > b.max_merge_keys as u64, "merge_keys");
+    bf(
+        b.enforce_alias_anchor_ratio
+            && a.aliases >= b.alias_anchor_min_aliases as u64
+            && a.aliases > (b.alias_anchor_ratio_multiplier as u64).saturating_mul(a.anchors),
+        "ratio",
+    );
+    if m.max_replayed_per_doc > al.max_total_replayed_events as u64 {
+        v.push(("AliasReplayLimitExceeded", None));
+    }
+    if m.max_expansions_per_anchor > al.max_alias_expansions_per_anchor as u64 {
+        v.push(("AliasExpansionLimitExceeded", None));
+    }
+    if m.all.aliases > 0 && al.max_replay_stack_depth < 1 {
+        v.push(("AliasReplayStackDepthExceeded", None));
+    }
+    v
+}
+
+struct Judged {
+    peak: u64,
+    counted: u64,
+}
+
+fn judge(run: &Run, c: &Case, text: &str, model: &StreamModel, ms: &Measured, via: &str) -> Option<Judged> {
+    let case = || json!({"kind": "family", "family": c.family, "p": c.p});
+    let fam = c.sig_family().to_string();
+    if let Some(p) = &ms.panic {
+        run.violation(&format!("C08:panic:{}", vcore::obs::panic_site(p)), case(), p.clone());
+        return None;
+    }
+    run.observe("outcome_kinds", if ms.out.ok { "Ok" } else { &ms.out.kind });
+    if ms.out.wrapped {
+        run.count("limit_errors_wrapped_in_AliasError", 1);
+    }
+    run.count("hook/pumps_parser", ms.mon.pumps_parser);
+    run.count("hook/pumps_replay", ms.mon.pumps_replay);
+    run.count("hook/alias_pushes", ms.mon.alias_pushes);
+    run.max("hook/max_rec_depth", ms.mon.max_rec_depth);
+    run.max("hook/max_inject_depth", ms.mon.max_inject_depth);
+    run.max("hook/max_replayed_since_reset", ms.mon.max_replayed_since_reset);
+    run.max("max_callbacks_one_run", ms.callbacks);
+
+    let b = serde_saphyr::Budget::default();
+    // ---- work bounds, every run
+    if let Some((what, v, lim, step)) = &ms.mon.step_violation {
+        run.violation(
+            &format!("C08:step:{what}:{fam}"),
+            case(),
+            format!("shadow counter {what} = {v} above its limit {lim} at hook step {step}"),
+        );
+    }
+    if ms.callbacks > b.max_nodes as u64 {
+        run.violation(
+            &format!("C08:work:nodes-delivered:{fam}"),
+            case(),
+            format!("{} visitor callbacks > max_nodes {}", ms.callbacks, b.max_nodes),
+        );
+    }
+    if ms.mon.pumps() > b.max_events as u64 {
+        run.violation(
+            &format!("C08:work:events-pumped:{fam}"),
+            case(),
+            format!("{} events pumped > max_events {}", ms.mon.pumps(), b.max_events),
+        );
+    }
+    // ---- acceptance under the default limits
+    let exceeded = exceeded_defaults(model);
+    if ms.out.ok {
+        if let Some(why) = ms.mon.disagreement(model) {
+            run.inconclusive(why);
+            return None;
+        }
+        if !exceeded.is_empty() {
+            run.violation(
+                &format!("C08:acceptance:accepted-beyond-limit:{}:{fam}", exceeded[0].1.unwrap_or(exceeded[0].0)),
+                case(),
+                format!("reference expansion exceeds {exceeded:?} under the default limits, yet Ok"),
+            );
+        } else {
+            run.count("default_limits/within_and_ok", 1);
+        }
+    } else {
+        // a failing run sees a prefix: the trace may not exceed the model
+        if ms.mon.pumps_parser > model.parser_pumps || ms.mon.pumps_replay > model.replayed_total {
+            run.inconclusive("model/trace: failing run pumped more than the model has");
+            return None;
+        }
+        let is_limit_kind = matches!(
+            ms.out.kind.as_str(),
+            "Budget" | "AliasReplayLimitExceeded" | "AliasExpansionLimitExceeded" | "AliasReplayStackDepthExceeded"
+        );
+        if !is_limit_kind {
+            run.inconclusive("family member rejected for a reason that is not a limit");
+            run.observe("non_limit_errors", &format!("{}:{}", c.family, ms.out.kind));
+            return None;
+        }
+        if exceeded.is_empty() {
+            run.violation(
+                &format!("C08:acceptance:false-rejection:{}:{fam}", ms.out.budget_field.as_deref().unwrap_or(&ms.out.kind)),
+                case(),
+                format!("reference expansion is within every default limit, got Err({}:{:?})", ms.out.kind, ms.out.budget_field),
+            );
+        } else if !exceeded.iter().any(|(k, f)| *k == ms.out.kind && f.map(String::from) == ms.out.budget_field) {
+            run.violation(
+                &format!("C08:acceptance:wrong-kind:{}:{fam}", ms.out.budget_field.as_deref().unwrap_or(&ms.out.kind)),
+                case(),
+                format!("exceeded limits {exceeded:?}, got Err({}:{:?})", ms.out.kind, ms.out.budget_field),
+            );
+        } else {
+            run.count("default_limits/beyond_and_rejected", 1);
+        }
+    }
+    // ---- memory
+    if ms.mem_out.ok != ms.out.ok || ms.mem_out.kind != ms.out.kind {
+        run.inconclusive("monitored run and memory run of the same input disagree");
+        return None;
+    }
+    let counted = match (ms.mem_report_events, ms.report_events) {
+        (Some(e), _) => e,
+        (None, Some(e)) => e,
+        (None, None) => ms.mon.events_seen(),
+    };
+    if ms.out.ok && ms.report_events.is_some() && ms.report_events != Some(model.all.events) {
+        // C07's subject; here it only decides which number enters the bound
+        run.inconclusive("report.events differs from the independent count");
+        return None;
+    }
+    let bound = memory_bound(text.len() as u64, counted);
+    run.max("peak_bytes_max", ms.peak);
+    run.count(&format!("memory_runs/{via}"), 1);
+    if ms.peak > bound {
+        run.violation(
+            &format!("C08:memory-bound:{fam}"),
+            case(),
+            format!(
+                "peak {} B ({:.1} MiB) > bound {} B ({:.1} MiB) = 2 MiB + 256*{} + 1024*{}; outcome {}",
+                ms.peak,
+                ms.peak as f64 / MIB as f64,
+                bound,
+                bound as f64 / MIB as f64,
+                text.len(),
+                counted,
+                if ms.out.ok { "Ok".to_string() } else { ms.out.kind.clone() }
+            ),
+        );
+    } else {
+        run.count("memory_bound_held", 1);
+    }
+    if ms.mon.pumps_replay >= 1 || c.product() >= 100 {
+        run.nontrivial(fnv_parts(&[c.family.as_bytes(), c.id().as_bytes()]));
+    }
+    Some(Judged { peak: ms.peak, counted })
+}
+
+// ------------------------------------------------------------------ acceptance at measured / measured-1 (small inputs)
+
+fn alias_opts(total: usize, stack: usize, per_anchor: usize, budget: serde_saphyr::Budget) -> serde_saphyr::Options {
+    let mut o = serde_saphyr::Options::default();
+    #[allow(deprecated)]
+    {
+        o.budget = Some(budget);
+        o.alias_limits.max_total_replayed_events = total;
+        o.alias_limits.max_replay_stack_depth = stack;
+        o.alias_limits.max_alias_expansions_per_anchor = per_anchor;
+        o.duplicate_keys = serde_saphyr::DuplicateKeyPolicy::LastWins;
+    }
+    o
+}
+
+/// Returns true when the input was verdict-capable.
+fn check_tightened(run: &Run, text: &str, label: &str, loc: &mut BTreeMap<&'static str, u64>) -> bool {
+    let case = |extra: serde_json::Value| json!({"kind": "text", "text": text, "limits": extra});
+    let Ok(model) = bm::model(text) else {
+        run.inconclusive("generator-invalid: raw parser rejects the input");
+        return false;
+    };
+    if model.flags.unresolved_alias || model.docs.is_empty() || (model.docs.len() > 1) != text.contains("\n---\n") {
+        *loc.entry("skipped/unresolvable").or_insert(0) += 1;
+        return false;
+    }
+    if model.docs.len() > 1 {
+        *loc.entry("multi_document_inputs").or_insert(0) += 1;
+    }
+    const U: usize = usize::MAX;
+    // baseline: nothing limits
+    run.eval();
+    let (r, mon, callbacks) = run_monitored(text, alias_opts(U, U, U, bm::unlimited_budget()), model.max_anchor_id);
+    let out = match r {
+        Err(p) => {
+            run.violation(&format!("C08:panic:{}", vcore::obs::panic_site(&p)), case(json!("unlimited")), p);
+            return false;
+        }
+        Ok(o) => o,
+    };
+    if !out.ok {
+        *loc.entry("skipped/unlimited-run-fails").or_insert(0) += 1;
+        return false;
+    }
+    if let Some(why) = mon.disagreement(&model) {
+        run.inconclusive(why);
+        return false;
+    }
+    *loc.entry("verdict_capable_inputs").or_insert(0) += 1;
+    *loc.entry("hook/pumps_replay").or_insert(0) += mon.pumps_replay;
+    *loc.entry("hook/alias_pushes").or_insert(0) += mon.alias_pushes;
+    if callbacks > model.all.nodes {
+        run.violation(
+            &format!("C08:work:callbacks-above-counted-nodes:{label}"),
+            case(json!("unlimited")),
+            format!("{callbacks} visitor callbacks > {} nodes of the reference expansion", model.all.nodes),
+        );
+    }
+    let r_meas = model.max_replayed_per_doc;
+    let e_meas = model.max_expansions_per_anchor;
+    let d_meas = mon.max_inject_depth;
+    if model.all.aliases > 0 && d_meas != 1 {
+        run.inconclusive("inject depth is not 1 although aliases were expanded");
+        return false;
+    }
+    struct Probe {
+        name: &'static str,
+        opts: serde_saphyr::Options,
+        max_nodes: u64,
+        max_events: u64,
+        /// None = must be Ok; Some((kind, field)) = must fail like that
+        want: Option<(&'static str, Option<&'static str>)>,
+        lim: serde_json::Value,
+    }
+    let mut probes: Vec<Probe> = Vec::new();
+    let ub = bm::unlimited_budget;
+    let mut push = |name: &'static str, t: u64, s: u64, a: u64, b: serde_saphyr::Budget, want| {
+        let lim = json!({"probe": name, "max_total_replayed_events": t, "max_replay_stack_depth": s, "max_alias_expansions_per_anchor": a, "max_nodes": b.max_nodes, "max_events": b.max_events});
+        let (mn, me) = (b.max_nodes as u64, b.max_events as u64);
+        probes.push(Probe { name, opts: alias_opts(t as usize, s as usize, a as usize, b), max_nodes: mn, max_events: me, want, lim });
+    };
+    let um = U as u64;
+    if model.all.aliases > 0 {
+        push("replayed=R", r_meas, um, um, ub(), None);
+        if r_meas >= 1 {
+            push("replayed=R-1", r_meas - 1, um, um, ub(), Some(("AliasReplayLimitExceeded", None)));
+        }
+        push("per-anchor=E", um, um, e_meas, ub(), None);
+        push("per-anchor=E-1", um, um, e_meas - 1, ub(), Some(("AliasExpansionLimitExceeded", None)));
+        push("stack=D", um, d_meas, um, ub(), None);
+        push("stack=D-1", um, d_meas - 1, um, ub(), Some(("AliasReplayStackDepthExceeded", None)));
+        // all three at their measured values together
+        push("all-three-at-measured", r_meas, d_meas, e_meas, ub(), None);
+    }
+    {
+        let n = model.all.nodes;
+        let mut b = ub();
+        b.max_nodes = n as usize;
+        push("nodes=N", um, um, um, b, None);
+        if n >= 1 {
+            let mut b = ub();
+            b.max_nodes = (n - 1) as usize;
+            push("nodes=N-1", um, um, um, b, Some(("Budget", Some("nodes"))));
+        }
+        let e = model.all.events;
+        let mut b = ub();
+        b.max_events = e as usize;
+        push("events=E", um, um, um, b, None);
+        if e >= 2 {
+            // E-1 breaches on the stream-end marker (C07's subject); E-2 breaches inside the document
+            let mut b = ub();
+            b.max_events = (e - 2) as usize;
+            push("events=E-2", um, um, um, b, Some(("Budget", Some("events"))));
+        }
+    }
+    for p in probes {
+        run.eval();
+        let (r, mon, callbacks) = run_monitored(text, p.opts, model.max_anchor_id);
+        let out = match r {
+            Err(pn) => {
+                run.violation(&format!("C08:panic:{}", vcore::obs::panic_site(&pn)), case(p.lim.clone()), pn);
+                continue;
+            }
+            Ok(o) => o,
+        };
+        if out.wrapped {
+            *loc.entry("limit_errors_wrapped_in_AliasError").or_insert(0) += 1;
+        }
+        if let Some((what, v, lim, step)) = &mon.step_violation {
+            run.violation(
+                &format!("C08:step:{what}:{label}"),
+                case(p.lim.clone()),
+                format!("shadow counter {what} = {v} above its limit {lim} at hook step {step} (probe {})", p.name),
+            );
+        }
+        if callbacks > p.max_nodes {
+            run.violation(
+                &format!("C08:work:nodes-delivered:{label}"),
+                case(p.lim.clone()),
+                format!("{callbacks} visitor callbacks > max_nodes {} (probe {})", p.max_nodes, p.name),
+            );
+        }
+        if mon.pumps() > p.max_events {
+            run.violation(
+                &format!("C08:work:events-pumped:{label}"),
+                case(p.lim.clone()),
+                format!("{} events pumped > max_events {} (probe {})", mon.pumps(), p.max_events, p.name),
+            );
+        }
+        match (&p.want, out.ok) {
+            (None, true) => *loc.entry("acceptance/at_measured_ok").or_insert(0) += 1,
+            (None, false) => run.violation(
+                &format!("C08:acceptance:false-rejection:{}:{label}", p.name),
+                case(p.lim.clone()),
+                format!("limits at the measured values, got Err({}:{:?})", out.kind, out.budget_field),
+            ),
+            (Some((k, f)), false) if out.kind == *k && out.budget_field.as_deref() == *f => {
+                *loc.entry("acceptance/below_measured_err").or_insert(0) += 1;
+                run.observe("limit_error_kinds", k);
+            }
+            (Some((k, _)), false) => run.violation(
+                &format!("C08:acceptance:wrong-kind:{}:{label}", p.name),
+                case(p.lim.clone()),
+                format!("expected {k}, got Err({}:{:?})", out.kind, out.budget_field),
+            ),
+            (Some((k, _)), true) => run.violation(
+                &format!("C08:acceptance:not-enforced:{}:{label}", p.name),
+                case(p.lim.clone()),
+                format!("limit one below the measured value, expected {k}, got Ok"),
+            ),
+        }
+    }
+    if mon.pumps_replay >= 1 {
+        run.nontrivial(fnv_parts(&[text.as_bytes(), b"tightened"]));
+    }
+    true
+}
+
+// ------------------------------------------------------------------ generated documents (same generator as C02/C07)
+
+fn random_decorated(rng: &mut Rng) -> Node {
+    let mut counter = 0;
+    let budget = rng.range(4, 40);
+    let mut t = treegen::random_tree(rng, budget, 5, LEAVES_BASIC, &mut counter);
+    let paths = treegen::node_paths(&t);
+    let names = ["a", "b", "c", "d"];
+    let n_anchor = rng.range(1, 6.min(paths.len()));
+    for _ in 0..n_anchor {
+        let p = rng.pick(&paths).clone();
+        let name = *rng.pick(&names);
+        let n = treegen::node_at_mut(&mut t, &p);
+        if !matches!(n, Node::Alias(_)) {
+            *n = n.clone().with_anchor(name);
+        }
+    }
+    let n_alias = rng.range(1, 6);
+    for _ in 0..n_alias {
+        let paths = treegen::node_paths(&t);
+        let p = rng.pick(&paths).clone();
+        if p.is_empty() {
+            continue;
+        }
+        let name = *rng.pick(&names);
+        let mut t2 = t.clone();
+        *treegen::node_at_mut(&mut t2, &p) = Node::alias(name);
+        if let Some((&last, parent)) = p.split_last()
+            && last % 2 == 1
+            && rng.chance(1, 4)
+        {
+            let mut kp = parent.to_vec();
+            kp.push(last - 1);
+            *treegen::node_at_mut(&mut t2, &kp) = Node::plain("<<");
+        }
+        if ydoc::expand(&t2).is_some() {
+            t = t2;
+        }
+    }
+    t
+}
+
+// ------------------------------------------------------------------ grids
+
+fn grid(tier: Tier) -> Vec<Case> {
+    let mut v = Vec::new();
+    let q = tier == Tier::Quick;
+    // fan-out^levels bombs
+    let fs: &[u64] = if q { &[2, 3, 6, 10] } else { &[2, 3, 4, 5, 6, 7, 8, 9, 10] };
+    let ls: &[u64] = if q { &[1, 3, 5, 7, 9] } else { &[1, 2, 3, 4, 5, 6, 7, 8, 9] };
+    for &f in fs {
+        for &l in ls {
+            v.push(Case::new("bomb", &[f, l]));
+        }
+    }
+    for &n in if q { &[10u64, 100, 1000, 5000][..] } else { &[10u64, 100, 500, 1000, 2000, 5000, 20_000, 50_000][..] } {
+        v.push(Case::new("chain", &[n]));
+    }
+    for &n in if q { &[50u64, 100, 1000, 2000, 50_000][..] } else { &[10u64, 50, 99, 100, 1000, 2000, 4000, 25_000, 50_000, 50_001][..] } {
+        v.push(Case::new("alias-run", &[n]));
+    }
+    for &(n, k) in if q {
+        &[(10u64, 10u64), (100, 100), (200, 100), (100, 200), (1000, 100)][..]
+    } else {
+        &[(10u64, 10u64), (100, 100), (200, 100), (100, 200), (400, 100), (100, 400), (1000, 100), (2000, 100), (1000, 500), (10, 20_000), (10, 40_000)][..]
+    } {
+        v.push(Case::new("aliases-in-anchored", &[n, k]));
+    }
+    // anchors nested d deep around n nodes; d*n capped so that the expected peak stays under ~1.5 GiB
+    let cap: u64 = if q { 1_300_000 } else { 6_500_000 };
+    let ds_flow: &[u64] = if q { &[1, 4, 16, 32, 64, 250] } else { &[1, 2, 4, 8, 16, 32, 64, 125, 250] };
+    let ns: &[u64] = if q { &[100, 1000, 10_000, 20_000, 100_000] } else { &[100, 1000, 10_000, 20_000, 40_000, 100_000, 200_000] };
+    for &d in ds_flow {
+        for &n in ns {
+            if d * n <= cap {
+                v.push(Case::new("nested-anchors-flow", &[d, n]));
+            }
+        }
+    }
+    let ds_block: &[u64] = if q { &[4, 500, 1000] } else { &[1, 4, 16, 64, 250, 500, 1000] };
+    for &d in ds_block {
+        for &n in if q { &[100u64, 1000][..] } else { &[100u64, 1000, 2000, 4000, 100_000][..] } {
+            if d * n <= cap {
+                v.push(Case::new("nested-anchors-block", &[d, n]));
+            }
+        }
+    }
+    for fam in ["wide-merge-distinct", "wide-merge-same"] {
+        for &(k, m) in if q {
+            &[(1u64, 100u64), (10, 100), (20, 100), (10, 200), (100, 100)][..]
+        } else {
+            &[(1u64, 100u64), (10, 10), (10, 100), (20, 100), (10, 200), (40, 100), (10, 400), (100, 100), (200, 100), (100, 200), (1000, 10), (10, 1000), (400, 100)][..]
+        } {
+            v.push(Case::new(fam, &[k, m]));
+        }
+    }
+    for &n in if q { &[100u64, 1000, 10_000, 20_000][..] } else { &[100u64, 1000, 5000, 10_000, 20_000, 40_000, 50_000, 50_001][..] } {
+        v.push(Case::new("many-small-anchors", &[n]));
+    }
+    v
+}
+
+/// Rough upper estimate of the peak (bytes) used only to decide where a case is measured.
+fn estimated_peak(c: &Case, m: &StreamModel) -> u64 {
+    let stored = m.all.events.min(2_300_000);
+    let depth_factor = match c.family.as_str() {
+        "nested-anchors-flow" | "nested-anchors-block" => c.p[0],
+        _ => 1,
+    };
+    stored.saturating_mul(depth_factor).saturating_mul(400)
+}
+
+fn run_case_in_child(c: &Case) -> Result<Measured, String> {
+    let exe = std::env::current_exe().map_err(|e| e.to_string())?;
+    let args = vec!["child".to_string(), serde_json::to_string(c).unwrap()];
+    // address space: 512 MiB measuring stack + 3.5 GiB heap at most
+    let out = vcore::obs::run_child(&exe, &args, None, None, Some(4u64 << 30), Some(600), 900).map_err(|e| e.to_string())?;
+    if out.timed_out {
+        return Err("child timed out (watchdog)".into());
+    }
+    if out.signal.is_some() || out.exit_code != Some(0) {
+        return Err(format!("child died: exit {:?} signal {:?} rss {} KiB", out.exit_code, out.signal, out.max_rss_kb));
+    }
+    let line = out.stdout.lines().rev().find(|l| l.starts_with('{')).ok_or("child printed no result")?;
+    serde_json::from_str::<Measured>(line).map_err(|e| format!("child result unreadable: {e}"))
+}
+
+fn child_main(arg: &str) -> ! {
+    let c: Case = match serde_json::from_str(arg) {
+        Ok(c) => c,
+        Err(e) => {
+            eprintln!("bad child argument: {e}");
+            std::process::exit(3);
+        }
+    };
+    vcore::obs::install_quiet_panic_hook();
+    let h = std::thread::Builder::new()
+        .stack_size(512 << 20)
+        .spawn(move || {
+            let text = build(&c);
+            measure_default(&text)
+        })
+        .expect("spawn");
+    match h.join() {
+        Ok(m) => {
+            println!("{}", serde_json::to_string(&m).unwrap());
+            std::process::exit(0);
+        }
+        Err(_) => std::process::exit(4),
+    }
+}
+
+fn main() {
+    let args: Vec<String> = std::env::args().collect();
+    if args.get(1).map(|s| s.as_str()) == Some("child") {
+        child_main(args.get(2).map(|s| s.as_str()).unwrap_or(""));
+    }
+    let run = Run::from_args("C08");
+    if let Some(rep) = run.is_replay() {
+        let case = &rep["case"];
+        match case["kind"].as_str() {
+            Some("family") => {
+                let c = Case {
+                    family: case["family"].as_str().unwrap_or("").to_string(),
+                    p: case["p"].as_array().map(|a| a.iter().filter_map(|x| x.as_u64()).collect()).unwrap_or_default(),
+                };
+                let text = build(&c);
+                match bm::model(&text) {
+                    Ok(model) => match run_case_in_child(&c) {
+                        Ok(ms) => {
+                            judge(&run, &c, &text, &model, &ms, "child");
+                        }
+                        Err(e) => run.inconclusive(&e),
+                    },
+                    Err(e) => run.inconclusive(&e),
+                }
+            }
+            _ => {
+                let text = case["text"].as_str().unwrap_or("").to_string();
+                let mut loc = BTreeMap::new();
+                check_tightened(&run, &text, "replay", &mut loc);
+            }
+        }
+        run.finish(Finish::new("replay"));
+    }
+    let tier = run.tier;
+
+    // ---- 1. attack families under the default limits: work bounds, acceptance, memory
+    let cases = grid(tier);
+    run.count("family_cases", cases.len() as u64);
+    struct Prepared {
+        c: Case,
+        text: String,
+        model: StreamModel,
+        heavy: bool,
+    }
+    let prepared: Mutex<Vec<Option<Prepared>>> = Mutex::new((0..cases.len()).map(|_| None).collect());
+    par_range(cases.len(), |i| {
+        let c = cases[i].clone();
+        let text = build(&c);
+        match bm::model(&text) {
+            Ok(model) => {
+                let heavy = estimated_peak(&c, &model) > 48 * MIB;
+                prepared.lock().unwrap()[i] = Some(Prepared { c, text, model, heavy });
+            }
+            Err(e) => run.inconclusive(&format!("generator-invalid: {} ({e})", cases[i].family)),
+        }
+    });
+    let prepared: Vec<Prepared> = prepared.into_inner().unwrap().into_iter().flatten().collect();
+    let results: Mutex<BTreeMap<String, (Case, Judged)>> = Mutex::new(BTreeMap::new());
+    let light: Vec<&Prepared> = prepared.iter().filter(|p| !p.heavy).collect();
+    let heavy: Vec<&Prepared> = prepared.iter().filter(|p| p.heavy).collect();
+    run.count("family_cases_light", light.len() as u64);
+    run.count("family_cases_heavy", heavy.len() as u64);
+    par_range(light.len(), |i| {
+        let p = light[i];
+        run.evals(2);
+        let ms = measure_default(&p.text);
+        if let Some(j) = judge(&run, &p.c, &p.text, &p.model, &ms, "in-process") {
+            results.lock().unwrap().insert(p.c.id(), (p.c.clone(), j));
+        }
+        if i % 7 == 0 {
+            run.sample(|| json!({"family": p.c.family, "p": p.c.p, "input_bytes": p.text.len(), "peak": ms.peak, "outcome": if ms.out.ok {"Ok".to_string()} else {ms.out.kind.clone()}, "model_events": p.model.all.events}));
+        }
+    });
+    // heavy members: child processes, at most 3 at a time
+    {
+        let next = std::sync::atomic::AtomicUsize::new(0);
+        std::thread::scope(|s| {
+            for _ in 0..3.min(heavy.len()) {
+                s.spawn(|| {
+                    loop {
+                        let i = next.fetch_add(1, std::sync::atomic::Ordering::Relaxed);
+                        if i >= heavy.len() {
+                            break;
+                        }
+                        let p = heavy[i];
+                        run.evals(2);
+                        match run_case_in_child(&p.c) {
+                            Ok(ms) => {
+                                if let Some(j) = judge(&run, &p.c, &p.text, &p.model, &ms, "child") {
+                                    results.lock().unwrap().insert(p.c.id(), (p.c.clone(), j));
+                                }
+                                run.sample(|| json!({"family": p.c.family, "p": p.c.p, "input_bytes": p.text.len(), "peak": ms.peak, "outcome": if ms.out.ok {"Ok".to_string()} else {ms.out.kind.clone()}, "model_events": p.model.all.events, "via": "child"}));
+                            }
+                            Err(e) => {
+                                run.inconclusive(&format!("child: {}", e.split(':').next().unwrap_or("failed")));
+                                run.note(format!("{}: {e}", p.c.id()));
+                            }
+                        }
+                    }
+                });
+            }
+        });
+    }
+    // scaling law over the measured grid
+    {
+        let res = results.lock().unwrap();
+        for (c, j) in res.values() {
+            for &pi in c.linear_params() {
+                let mut c2 = c.clone();
+                c2.p[pi] *= 2;
+                if let Some((_, j2)) = res.get(&c2.id()) {
+                    run.count("scaling_pairs_seen", 1);
+                    if j.peak > 2 * MIB {
+                        run.count("scaling_pairs_checked", 1);
+                        let ratio = j2.peak as f64 / j.peak as f64;
+                        run.max("scaling_ratio_max_permille", (ratio * 1000.0) as u64);
+                        run.max(&format!("scaling_ratio_max_permille/{}:p{pi}", c.sig_family()), (ratio * 1000.0) as u64);
+                        if ratio > SCALING_FACTOR {
+                            run.violation(
+                                &format!("C08:memory-scaling:{}:p{pi}", c.sig_family()),
+                                json!({"kind": "family", "family": c2.family, "p": c2.p, "half": c.p}),
+                                format!("peak {} B at {} vs {} B at {}: x{ratio:.2} for a doubled parameter (limit x{SCALING_FACTOR}); counted events {} vs {}", j2.peak, c2.id(), j.peak, c.id(), j2.counted, j.counted),
+                            );
+                        }
+                    }
+                }
+            }
+        }
+        // peak table for the evidence
+        for (id, (_, j)) in res.iter() {
+            if j.peak > 8 * MIB {
+                run.note(format!("{id}: peak {:.1} MiB, counted events {}", j.peak as f64 / MIB as f64, j.counted));
+            }
+        }
+    }
+    run.note(format!("phase 1 (families) done at {:.1}s", run.elapsed_s()));
+
+    // ---- 2. acceptance at measured / measured-1: small family members and generated documents
+    let small: Vec<&Prepared> = prepared.iter().filter(|p| p.model.all.events <= 60_000 && p.model.docs.len() == 1).collect();
+    run.count("tightened_family_members", small.len() as u64);
+    par_range(small.len(), |i| {
+        let mut loc = BTreeMap::new();
+        let fam = small[i].c.sig_family().to_string();
+        check_tightened(&run, &small[i].text, &fam, &mut loc);
+        run.count_map(&loc);
+    });
+    let n_random = tier.pick(8_000, 150_000);
+    par_range(n_random, |i| {
+        let mut rng = Rng::stream(run.seed, i as u64);
+        let mut loc = BTreeMap::new();
+        let t = random_decorated(&mut rng);
+        let mut t = t;
+        if rng.chance(1, 3) {
+            t.set_flow(true);
+        }
+        let ro = RenderOpts { indent: *rng.pick(&[1usize, 2, 4]), brk: "\n", compact: rng.bool() };
+        match render_checked(&t, &ro) {
+            Some((mut text, _)) => {
+                *loc.entry("random_documents").or_insert(0) += 1;
+                // every 4th case is a stream of 2..4 documents: the alias limits are per document
+                if i % 4 == 3 {
+                    for _ in 0..rng.range(1, 3) {
+                        let t2 = random_decorated(&mut rng);
+                        if let Some((more, _)) = render_checked(&t2, &ro) {
+                            if !text.ends_with('\n') {
+                                text.push('\n');
+                            }
+                            text.push_str("---\n");
+                            text.push_str(&more);
+                        }
+                    }
+                }
+                check_tightened(&run, &text, "generated", &mut loc);
+                if i % 1999 == 0 {
+                    run.sample(|| json!({"text": text}));
+                }
+            }
+            None => run.inconclusive("generator-invalid: document not parsed as intended"),
+        }
+        run.count_map(&loc);
+    });
+    run.note(format!("phase 2 (tightened limits) done at {:.1}s", run.elapsed_s()));
+
+    let fin = Finish::new(
+        "a case is non-trivial when the hook saw >= 1 replayed event or the product of the family parameters is >= 100; distinct by hash(family, parameters) / hash(text)",
+    )
+    .exhaustive(format!(
+        "the whole parameter grid of the tier ({} members): bomb f x l, chain n, alias-run n, aliases-in-anchored n x k, nested anchors d x n (flow d <= 250, block d <= 1000, d*n capped for memory), wide merges k x m (distinct / same keys), many small anchors n — each under Options::default(); every member with <= 60k expanded events additionally under each alias limit and max_nodes/max_events at measured and measured-1",
+        cases.len()
+    ))
+    .assume("memory = peak live bytes of the calling thread, counting allocator, target allocates nothing (counting::Sink); bound 2 MiB + 256*input_bytes + 1024*counted_events as fixed in DESIGN.md")
+    .assume("scaling law applied only to parameters in which a family's input and counted events are linear (not bomb f/l, not chain n)")
+    .assume("a limit error raised during a replay arrives as AliasError{msg = rendering of the limit error}; it is accepted as that limit's error kind (counted)")
+    .assume("verdicts only when the reference expansion equals the hook trace (pumps by source, replayed per document, expansions per anchor, nodes, depth, scalar bytes)")
+    .min_nontrivial(if tier == Tier::Quick { 1_000 } else { 10_000 });
+    run.finish(fin);
+}
